@@ -65,7 +65,13 @@ def genInner (api : String) (script : Bytes) (extra : List String) : Option Stri
 def gen (api : String) (script : Bytes) (extra : List String) : Option String :=
   if script.length < need api then (genInner api script extra).map fun _ => "exhausted" else genInner api script extra
 
-def handle (op : String) (args : List String) : Option String :=
+/-- `.h1/.h2/.h3` = the same operation after randombytes_close / randombytes_stir / both on the installed source:
+    by the property the answer depends only on the bytes the installed source supplies -/
+def baseOp (op : String) : String :=
+  if op.endsWith ".h1" || op.endsWith ".h2" || op.endsWith ".h3" then (op.dropEnd 3).toString else op
+
+def handle (op0 : String) (args : List String) : Option String :=
+  let op := baseOp op0
   match op, args with
   | "rng.uniform", [n, draws] => do
     let n ← parseNat? n; let ds ← parseDraws draws
